@@ -658,6 +658,14 @@ class Type:
                 warnings.warn(msg)
             return
 
+        # Check that feature is not already defined differently on a subtype
+        if not inherited:
+            for descendant in self.descendants:
+                redefined_feature = descendant._features.get(feature.name)
+                if descendant is not self and redefined_feature is not None and redefined_feature != feature:
+                    msg = f"Feature with name [{feature.name}] of [{self.name}] is already defined differently in subtype [{descendant.name}]!"
+                    raise ValueError(msg)
+
         target[feature.name] = feature
 
         # Recreate constructor to incorporate new features
